@@ -297,17 +297,40 @@ func adjacentC15(run *report.Run, acc *pairAcc, bf uint, n int) {
 	for i := 0; i < 12; i++ {
 		u *= bf
 	}
+	adjacentC15With(run, acc, bf, n, []uint{u, 2 * u, 3 * u}, "adjacent-one-sided-entries", "adjacent one-sided entries in front of a tall common subtree: all subsets of three extra keys against each other")
+}
+
+// subtreesBeforeSharedC15: the same, with one-sided *subtrees* between the one-sided entries: besides u, 2u, 3u
+// (top node) the extra keys u+1 (layer 0: a chain of pass-through nodes down to a leaf), u+bf^2 (layer 2) and
+// 2u+bf (layer 1) hang below the top node between those entries. In "new: [u T 2u S ...] old: [S ...]" the shared
+// subtree S is neither the next item nor the nearest link of the new version's traversal, but it is still ahead.
+func subtreesBeforeSharedC15(run *report.Run, acc *pairAcc, bf uint, n int) {
+	u := uint(1)
+	for i := 0; i < 12; i++ {
+		u *= bf
+	}
+	adjacentC15With(run, acc, bf, n, []uint{u, u + 1, u + bf*bf, 2 * u, 2*u + bf, 3 * u}, "one-sided-subtrees-in-front-of-a-shared-subtree", "one-sided entries and one-sided subtrees between them in front of a tall common subtree: all subsets of six extra keys against each other")
+}
+
+func adjacentC15With(run *report.Run, acc *pairAcc, bf uint, n int, extras []uint, label, part string) {
+	u := uint(1)
+	for i := 0; i < 12; i++ {
+		u *= bf
+	}
 	B := 8 * u
-	keys := []interface{}{u, 2 * u, 3 * u}
+	keys := []interface{}{}
+	for _, e := range extras {
+		keys = append(keys, e)
+	}
 	for i := 1; i <= n; i++ {
 		keys = append(keys, B+uint(i))
 	}
 	cfg := world.UintCfg(bf, keys, 1, ref.FormatBinary, "none")
-	cfg.Name = fmt.Sprintf("adjacent-one-sided-entries/uint %d+1..%d+%d and %d,%d,%d/bf%d", B, B, n, u, 2*u, 3*u, bf)
+	cfg.Name = fmt.Sprintf("%s/uint %d+1..%d+%d and %v/bf%d", label, B, B, n, extras, bf)
 	var vs []*bigTree
-	for mask := 0; mask < 8; mask++ {
+	for mask := 0; mask < 1<<uint(len(extras)); mask++ {
 		skip := map[int]bool{}
-		for b := 0; b < 3; b++ {
+		for b := 0; b < len(extras); b++ {
 			if mask&(1<<b) == 0 {
 				skip[b] = true
 			}
@@ -347,12 +370,12 @@ func adjacentC15(run *report.Run, acc *pairAcc, bf uint, n int) {
 			}
 			a.w = b.w // one world, one store log (checkDiffCost resets and reads the log of both sides)
 			pairs++
-			desc := []string{cfg.Name, fmt.Sprintf("old version: common keys plus extra keys by bit mask %03b; new version: mask %03b (heights %d / %d)", i, j, vs[i].root.Height, vs[j].root.Height)}
+			desc := []string{cfg.Name, fmt.Sprintf("old version: common keys plus extra keys by bit mask %06b; new version: mask %06b (heights %d / %d)", i, j, vs[i].root.Height, vs[j].root.Height)}
 			acc.add(cfg, "C15", checkDiffCost(cfg, a, b), desc)
 		}
 	}
 	acc.pairs += pairs
-	run.Parts = append(run.Parts, map[string]interface{}{"part": "adjacent one-sided entries in front of a tall common subtree: all subsets of three extra keys against each other", "config": cfg.Name, "ordered_pairs": pairs, "height": vs[0].root.Height})
+	run.Parts = append(run.Parts, map[string]interface{}{"part": part, "config": cfg.Name, "ordered_pairs": pairs, "height": vs[0].root.Height})
 }
 
 // structC15: struct keys (ordered by a comparator of their own, layered through the configured marshaler) in a
